@@ -238,8 +238,15 @@ theorem T_C04 (v : Variant) (attr : Toks) (item : Item) (out : Out)
     simp only [expand] at h
     split at h
     · simp at h
-    · obtain ⟨items, a, fns, tg, depMode, implBlock, h0, h1, h2, h3, h4, rfl⟩ := expandMod_ok h
-      have := implHeader_ok (v.apply a.opts) .module m.attrs [i a.traitIdent] _ fns tg depMode implBlock h2 h3 h4
+    · obtain ⟨items, a, fns0, fns, tg, depMode, implBlock, h0, h1, h2, hfns, h3, h4, rfl⟩ := expandMod_ok h
+      subst hfns
+      rw [detectDepMode_attachCfg] at h3
+      obtain ⟨im0, h40, _, hpa, _, hst, hpr⟩ := genImplBlock_attachCfg h4
+      have := implHeader_ok (v.apply a.opts) .module m.attrs [i a.traitIdent] _ fns0 tg depMode im0 h2 h3 h40
+      have hc : fnImplHeaderOk (v.apply a.opts) ((items.filterMap BodyItem.fn?).map (·.sig)) implBlock =
+          fnImplHeaderOk (v.apply a.opts) ((items.filterMap BodyItem.fn?).map (·.sig)) im0 := by
+        unfold fnImplHeaderOk; simp only [hpa, hst, hpr]
+      rw [← hc] at this
       simpa [P_C04, effectiveOpts, h1, Out.view, View.items, Out.inside, Out.after, mainImpl?, implsOf, Item.sourceFns, h0]
         using this
   | trait t => simp [P_C04]
